@@ -84,6 +84,9 @@ func fmtEntry(e types.Entry, ok bool) string {
 	return fmt.Sprintf("%s%s=%q", e.Key, t, e.Value)
 }
 
+// c10NoLevels switches the level-placement variants off (set per unit for the largest configurations)
+var c10NoLevels bool
+
 type c10Layout struct {
 	Tables [][]ver // flush order: Tables[0] flushed first
 	Block  int
@@ -180,6 +183,43 @@ func c10Check(c *Ctx, l c10Layout, keys []string, tss []uint64, fpFamilies []str
 				c.Violation(fmt.Sprintf("c10/%s/%s/tables=%d", kind, via, nonEmpty),
 					fmt.Sprintf("layout %v: lookup(%q, ts=%d) via %s handles = %s, want %s", l, qq.key, qq.ts, via, fmtEntry(got, gok), ws), nil, l)
 				return
+			}
+		}
+	}
+	// level placement: the same tables moved to different levels (file renames + recover): table i at level i, and
+	// reversed, so that a newer version can sit in a deeper level than an older one (the engine reaches such
+	// states through partial L0 compactions)
+	if nonEmpty >= 2 && !c10NoLevels {
+		base := vos.CurFS()
+		for variant := 0; variant < 2; variant++ {
+			fsx := base.Clone() // always start from the all-L0 directory
+			vos.SetFS(fsx)
+			names := fsx.Names()
+			for i, n := range names {
+				lvl := i
+				if variant == 1 {
+					lvl = len(names) - 1 - i
+				}
+				if lvl == 0 {
+					continue
+				}
+				vos.Rename(n, fmt.Sprintf("/d/%d-0.db", lvl))
+			}
+			lv, _ := originium.NewVerifLM("/d", 100, 10, l.Block, false).Reopen()
+			c.Res.Transitions += int64(nonEmpty)
+			for _, qq := range qs {
+				want, wok := modelLookup(all, qq.key, qq.ts)
+				got, gok := lv.Lookup(qq.key, qq.ts)
+				c.Res.Evaluations++
+				if gok != wok || (wok && !sameEntry(got, want)) {
+					ws := "not-found"
+					if wok {
+						ws = fmtEntry(want.entry(), true)
+					}
+					c.Violation(fmt.Sprintf("c10/levels/tables=%d", nonEmpty),
+						fmt.Sprintf("layout %v with table i moved to level %s: lookup(%q, ts=%d) = %s, want %s", l, []string{"i", "T-1-i"}[variant], qq.key, qq.ts, fmtEntry(got, gok), ws), nil, l)
+					return
+				}
 			}
 		}
 	}
@@ -297,7 +337,8 @@ func c10Units(tier string) []Unit {
 							tabs[d-1] = append(tabs[d-1], v)
 						}
 					}
-					for _, b := range cf.blocks {
+					for bi, b := range cf.blocks {
+						c10NoLevels = bi != len(cf.blocks)/2 // level placement with one block size per configuration
 						c10Check(c, c10Layout{Tables: tabs, Block: b}, qkeys, cf.query, []string{"A", "a", "c"})
 					}
 					if len(c.Res.Violations) >= 8 {
